@@ -1,7 +1,7 @@
 (* C12 - Fixed-point mul-div is exact for every input and fails only when it must.
    This file contains only pinned statements, each closed by [exact] of a lemma
    proved in Proofs/, followed by Print Assumptions. *)
-From SC Require Import Lib.Prelude Lib.Int Model.Math Proofs.Math Proofs.C12Final Run.C12 Proofs.C12Monitor.
+From SC Require Import Lib.Prelude Lib.Int Model.Math Proofs.Math Proofs.C12Final Run.C12 Proofs.C12Monitor Proofs.C12Magic.
 
 (* i128, plain variants: panic (Fail) iff d = 0 or the exactly rounded quotient of
    the UNBOUNDED product x*y does not fit; otherwise exactly that quotient. *)
@@ -74,6 +74,18 @@ Theorem C12_wad_pow_fails_iff : forall x e, MIN128 <= x <= MAX128 -> 0 <= e < 2 
 Proof. exact wad_pow_fails_iff. Qed.
 Print Assumptions C12_wad_pow_fails_iff.
 
+(* ZERO is the exact answer of Wad multiply / divide only for "dust": |a*b| < 10^18, resp. |a*10^18| < |b|.
+   Any shortcut that returns 0 without computing is sound exactly on these sets; in particular
+   0.000000001 * 0.000000001 (both raw 10^9 = sqrt(10^18)) is one whole raw unit, not 0. *)
+Theorem C12_wad_mul_zero_iff : forall a b, MIN128 <= a <= MAX128 -> MIN128 <= b <= MAX128 ->
+  (wad_checked_mul a b = Ok (Some 0) <-> Z.abs (a * b) < 10 ^ 18).
+Proof. exact wad_mul_zero_iff. Qed.
+Print Assumptions C12_wad_mul_zero_iff.
+Theorem C12_wad_div_zero_iff : forall a b, MIN128 <= a <= MAX128 -> MIN128 <= b <= MAX128 ->
+  (wad_checked_div a b = Ok (Some 0) <-> b <> 0 /\ Z.abs (a * 10 ^ 18) < Z.abs b).
+Proof. exact wad_div_zero_iff. Qed.
+Print Assumptions C12_wad_div_zero_iff.
+
 (* checked_pow never traps (its only failure mode is None); together with the definition of pow
    (unwrap-or-panic of checked_pow) this is the whole content of "pow fails exactly when
    checked_pow returns no value". *)
@@ -118,3 +130,16 @@ Example C12_pow_nonvacuous :
   wf_calls [WadCPow (2 * 10 ^ 18) 10; WadPow (2 * 10 ^ 18) 10] = true /\
   wf_calls [WadPow (2 * 10 ^ 18) 10] = false.
 Proof. vm_compute. repeat split. Qed.
+
+(* interior threshold sqrt(scale): the model's value at it, and the monitor rejecting, by itself, an
+   implementation that answers 0 there (while accepting 0 one raw unit below) *)
+Example C12_wad_mul_at_sqrt_scale :
+  wad_checked_mul (10 ^ 9) (10 ^ 9) = Ok (Some 1) /\ wad_checked_mul (10 ^ 9) (- 10 ^ 9) = Ok (Some (-1)) /\
+  wad_checked_mul (- 10 ^ 9) (- 10 ^ 9) = Ok (Some 1) /\ wad_checked_mul (10 ^ 9) (10 ^ 9 - 1) = Ok (Some 0).
+Proof. exact wad_mul_sqrt_scale. Qed.
+Example C12_monitor_rejects_dust_at_threshold :
+  check [(WadCMul (10 ^ 9) (10 ^ 9), Ok (Some 0))] = (1%N, 1%N, 0%N) /\
+  check [(WadCMul (10 ^ 9) (10 ^ 9 - 1), Ok (Some 0)); (WadCMul (- 10 ^ 9) (10 ^ 9), Ok (Some 0))] = (2%N, 2%N, 0%N) /\
+  check [(WadCDiv 1 (10 ^ 18), Ok (Some 0))] = (1%N, 1%N, 0%N) /\
+  check [(WadCDiv 1 (10 ^ 18 + 1), Ok (Some 0)); (WadCMul (10 ^ 9) (10 ^ 9), Ok (Some 1))] = (0%N, 0%N, 0%N).
+Proof. exact monitor_rejects_dust_at_threshold. Qed.
